@@ -159,10 +159,10 @@ def run(ctx):
     sl = {k: world.SLICES[k] for k in ("alias", "alias2", "pre", "pre2")}
     curve_check.run_engine(
         ctx, "C10_", sl,
-        n_random=120 if quick else 1200, rand_len=30,
+        n_random=120 if quick else 600, rand_len=30,
         rand_weights=dict(mutate_pi=4, mutate_pl=3, fit=5, getinit=2,
                           rate=0.3, scan=0.1, alias_pl=3),
-        walk_limit=250 if quick else None,
+        walk_limit=250 if quick else 600,
         curves=("syn1", "rec1", "syn2"), scripted=training_set_edits())
     if not quick:
         curve_check.repo_test_traces(ctx, "C10_")
